@@ -307,11 +307,16 @@ def explore_parallel(
                     break
                 h.apply(w0, cand)
                 steps += 1
-            obs.append(json.dumps(h.observe(w0), sort_keys=True, default=str))
+            # compared as a multiset: wake-ups that a closing connection schedules from a *set* of waiters may run in either order
+            ob = h.observe(w0)
+            ob = sorted(json.dumps(x, sort_keys=True, default=str) for x in ob) if isinstance(ob, list) else ob
+            obs.append(json.dumps(ob, sort_keys=True, default=str))
         finally:
             h.close(w0)
     if obs[0] != obs[1]:
-        raise HarnessError("determinism self-check failed: the same schedule executed twice gave different observations")
+        i = next((k for k, (x, y) in enumerate(zip(obs[0], obs[1])) if x != y), min(len(obs[0]), len(obs[1])))
+        raise HarnessError("determinism self-check failed: the same schedule executed twice gave different observations: "
+                           f"...{obs[0][max(0, i - 120): i + 80]!r} vs ...{obs[1][max(0, i - 120): i + 80]!r}")
     # enumerate all label sequences of length split_depth (within the bound) in the parent
     top = Explorer(h, depth=split_depth, bound=bound, max_violations=max_violations)
     jobs: list[list[Any]] = []
